@@ -124,7 +124,39 @@ def match_known(known, subname, fail):
 # ----------------------------------------------------------------------------------------------
 # executing one case (optionally in a forked child)
 # ----------------------------------------------------------------------------------------------
+class CaseTimeout(BaseException):
+    """raised by the alarm that bounds the wall time of one case (BaseException: no `except Exception` in the
+    code under test or in a check can swallow it)."""
+
+
+def _alarm(signum, frame):
+    raise CaseTimeout()
+
+
+CASE_TIMEOUT = float(os.environ.get("VERIF_CASE_TIMEOUT", "240"))
+
+
 def _exec_case(sub, case):
+    import signal
+    old = None
+    try:
+        # a case that runs away (e.g. a fit that no longer terminates under a changed tree) is inconclusive, not a
+        # violation, and must not hold up the whole check
+        old = signal.signal(signal.SIGALRM, _alarm)
+        signal.setitimer(signal.ITIMER_REAL, getattr(sub, "case_timeout", None) or CASE_TIMEOUT)
+    except (ValueError, AttributeError):
+        old = None
+    try:
+        return _exec_case_inner(sub, case)
+    except CaseTimeout:
+        return Outcome(nontrivial=False, labels=["case_timeout_inconclusive"], skipped=True)
+    finally:
+        if old is not None:
+            signal.setitimer(signal.ITIMER_REAL, 0)
+            signal.signal(signal.SIGALRM, old)
+
+
+def _exec_case_inner(sub, case):
     try:
         out = sub.run(case)
         if out is None:
